@@ -10,6 +10,7 @@ package main
 
 import (
 	"context"
+	"errors"
 	"strings"
 
 	"go.etcd.io/etcd/api/v3/etcdserverpb"
@@ -111,4 +112,115 @@ func (r *Runner) etcdWrite(ctx context.Context, st Step, key []byte, o *Obs) err
 		}
 	}
 	return nil
+}
+
+// ---------- the decorator hands a commit's error on unchanged (link to Model/C09Fronts.v deco_commit) ----------
+
+type decoRow struct {
+	Name     string `json:"name"`
+	Same     bool   `json:"same_error_value"`
+	Cas      bool   `json:"is_cas_failed"`
+	NotFound bool   `json:"is_key_not_found"`
+	Unc      bool   `json:"is_uncertain"`
+	Conflict bool   `json:"as_conflict"`
+}
+
+// decoratorTable: every class of commit error the backend distinguishes (errors.Is on the three sentinels, errors.As
+// on *storage.Conflict) is injected below imetrics.NewKvStorage; what comes out of the decorator's Commit must be
+// classified the same way. Returns the rows and the names of those that differ.
+func decoratorTable(scratch string) ([]decoRow, []string) {
+	inner, closer, err := lib.NewEngine(lib.EngMem, scratch)
+	if err != nil {
+		return nil, []string{"engine: " + err.Error()}
+	}
+	defer closer()
+	var inject error
+	w := &lib.Wrap{KvStorage: inner, CommitFault: func() (error, bool) { return inject, false }}
+	kv := imetrics.NewKvStorage(w, &lib.NopMetrics{})
+	classes := func(e error) (bool, bool, bool, bool) {
+		var c *storage.Conflict
+		return errors.Is(e, storage.ErrCASFailed), errors.Is(e, storage.ErrKeyNotFound), errors.Is(e, storage.ErrUncertainResult), errors.As(e, &c)
+	}
+	cases := []struct {
+		name string
+		err  error
+	}{
+		{"bare ErrCASFailed", storage.ErrCASFailed},
+		{"*storage.Conflict", storage.NewErrConflict(0, []byte("k"), []byte("v"))},
+		{"ErrKeyNotFound", storage.ErrKeyNotFound},
+		{"uncertain(injected)", storage.NewErrUncertainResult(errInjected)},
+		{"uncertain(ErrCASFailed)", storage.NewErrUncertainResult(storage.ErrCASFailed)},
+		{"uncertain(context.DeadlineExceeded)", storage.NewErrUncertainResult(context.DeadlineExceeded)},
+		{"plain injected error", errInjected},
+		{"ErrUnavailable", storage.ErrUnavailable},
+	}
+	var rows []decoRow
+	var bad []string
+	for _, c := range cases {
+		inject = c.err
+		b := kv.BeginBatchWrite()
+		b.Put([]byte("\x00verif-deco"), []byte("x"), 0)
+		got := b.Commit(context.Background())
+		a1, a2, a3, a4 := classes(c.err)
+		g1, g2, g3, g4 := classes(got)
+		row := decoRow{Name: c.name, Same: got == c.err, Cas: g1, NotFound: g2, Unc: g3, Conflict: g4}
+		rows = append(rows, row)
+		if got == nil || a1 != g1 || a2 != g2 || a3 != g3 || a4 != g4 {
+			bad = append(bad, c.name)
+		}
+	}
+	// no injected error: the batch commits
+	inject = nil
+	b := kv.BeginBatchWrite()
+	b.Put([]byte("\x00verif-deco"), []byte("x"), 0)
+	if got := b.Commit(context.Background()); got != nil {
+		bad = append(bad, "no error: "+got.Error())
+	}
+	rows = append(rows, decoRow{Name: "no error", Same: true})
+	return rows, bad
+}
+
+// ---------- validity of a script (Model/C09Cases.v: step_outside, dstep_wfb), as the driver knows it ----------
+
+func envOutside(e Env) bool { return e.Kind == "unk" && e.OCas }
+
+// stepOutside: an unknown-outcome error whose origin is a compare failure, or a client value equal to the deletion marker
+func stepOutside(s Step) bool {
+	switch s.Kind {
+	case "create", "update", "delete":
+		for _, e := range s.Envs {
+			if envOutside(e) {
+				return true
+			}
+		}
+		return s.Kind != "delete" && string(s.Val) == "tombstone"
+	case "retry", "rfinish":
+		return len(s.Envs) > 0 && envOutside(s.Envs[0])
+	}
+	return false
+}
+
+// stepValid: dstep_wfb
+func stepValid(s Step) bool {
+	if stepOutside(s) {
+		return false
+	}
+	if (s.Kind == "retry" || s.Kind == "rfinish") && len(s.Envs) > 0 && s.Envs[0].Kind == "abort" {
+		return false
+	}
+	return true
+}
+
+// scriptValidity: (outside, valid) of c09_check's third clause
+func scriptValidity(script []Step) (bool, bool) {
+	outside, valid := false, true
+	for _, s := range script {
+		if stepOutside(s) {
+			outside = true
+		}
+		if !stepValid(s) {
+			valid = false
+		}
+	}
+	return outside, valid
 }
